@@ -141,6 +141,30 @@ mod string_arithmetic {
 
     exact_shift!(i32, i128, u8);
 
+    /// `checked_rem` refuses `MIN % -1`, because the division it belongs to overflows. The remainder
+    /// itself is 0: only a zero divisor has none.
+    trait ExactRem: Sized {
+        fn exact_rem(self, rhs: Self) -> Option<Self>;
+    }
+
+    macro_rules! exact_rem {
+        ($($ty:ty),+) => {
+            $(
+                impl ExactRem for $ty {
+                    fn exact_rem(self, rhs: Self) -> Option<Self> {
+                        if rhs == 0 {
+                            None
+                        } else {
+                            Some(self.wrapping_rem(rhs))
+                        }
+                    }
+                }
+            )+
+        };
+    }
+
+    exact_rem!(i32, i128, u8);
+
     macro_rules! parse {
         ($val:expr, $ty:ty) => {
             <std::result::Result<_, _> as anyhow::Context<_, _>>::with_context(
@@ -343,7 +367,7 @@ mod string_arithmetic {
     number_impl!(bitshift exact_shl as Shl, shl);
     number_impl!(bitshift exact_shr as Shr, shr);
     number_impl!(fpNonzero checked_div as Div, div);
-    number_impl!(fpNonzero checked_rem as Rem, rem);
+    number_impl!(fpNonzero exact_rem as Rem, rem);
     number_impl!(infallible bitand as BitAnd, bitand);
     number_impl!(infallible bitor as BitOr, bitor);
     number_impl!(infallible bitxor as BitXor, bitxor);
